@@ -23,7 +23,14 @@ import (
 	"time"
 )
 
-const verifDir = "/verif"
+// verifDir is where this copy of the machinery lives: VERIF_DIR (set by check.sh / replay.sh to their own
+// directory, so that a snapshot elsewhere uses its own build output and evidence) or /verif.
+var verifDir = func() string {
+	if d := os.Getenv("VERIF_DIR"); d != "" {
+		return d
+	}
+	return "/verif"
+}()
 
 type engineRef struct {
 	Name   string `json:"name"`
